@@ -11,6 +11,7 @@ import OFV.Proofs.C12
 import OFV.Proofs.C12Maj
 import OFV.Proofs.C12Swap
 import OFV.Proofs.C12Fock
+import OFV.Proofs.C12Bogo
 import Mathlib.Data.Matrix.Mul
 import Mathlib.LinearAlgebra.Matrix.Notation
 
@@ -115,6 +116,37 @@ theorem fock_state_energy {R : Type} [Ring R] {V : Type} [AddCommGroup V] [Modul
     (((List.range n).map fun j => ε j * (ad j * a j)).sum + c) • fock ad vac S =
     (((List.range n).map fun j => if j ∈ S then ε j else 0).sum + c) • fock ad vac S :=
   hamiltonian_fock h vac hvac ε c S hnd hS (List.range n) (fun _ hj => List.mem_range.mp hj)
+
+open OFV.Car Finset in
+/-- **Canonical constraints on `W` ⟹ the new operators satisfy the CAR.**  With `b†_i = Σ_k (A_ik a†_k + B_ik a_k)` and
+`b_i = Σ_k (A'_ik a_k + B'_ik a†_k)` (for a Bogoliubov matrix `W = (W1 W2)`: `A = W1`, `B = W2`, `A' = conj W1`,
+`B' = conj W2`), the block identities `W1 W1† + W2 W2† = 1` (`h1`, read entrywise and conjugated) and
+`W1 W2ᵀ + W2 W1ᵀ = 0` (`h2`, and its conjugate `h2'`) — exactly the test of `fermionic_gaussian_decomposition` and the oracle
+of the harness — imply `{b_i, b_j} = {b†_i, b†_j} = 0`, `{b_i, b†_j} = δ_ij`, in any algebra over a commutative ring. -/
+theorem constraints_imply_car {K R : Type} [CommRing K] [Ring R] [Algebra K R] (n : Nat) (ad a : Nat → R) (hc : CAR n ad a)
+    (A B A' B' : Nat → Nat → K)
+    (h1 : ∀ i j, i < n → j < n → ∑ k ∈ range n, (A' i k * A j k + B' i k * B j k) = if i = j then 1 else 0)
+    (h2 : ∀ i j, i < n → j < n → ∑ k ∈ range n, (A i k * B j k + B i k * A j k) = 0)
+    (h2' : ∀ i j, i < n → j < n → ∑ k ∈ range n, (A' i k * B' j k + B' i k * A' j k) = 0) :
+    CAR n (bdag n A B ad a) (bann n A' B' ad a) :=
+  bogoliubov_car n ad a hc A B A' B' h1 h2 h2'
+
+open OFV.Car Finset in
+/-- … and conversely the CAR of the new operators force the first block identity, whenever scalars act faithfully on `1`
+(`{b_i, b†_j}` equals the scalar `Σ_k (A'_ik A_jk + B'_ik B_jk)` unconditionally) -/
+theorem car_implies_constraint {K R : Type} [CommRing K] [Ring R] [Algebra K R] (n : Nat) (ad a : Nat → R) (hc : CAR n ad a)
+    (A B A' B' : Nat → Nat → K) (hinj : ∀ x y : K, x • (1 : R) = y • (1 : R) → x = y)
+    (hb : CAR n (bdag n A B ad a) (bann n A' B' ad a)) (i j : Nat) (hi : i < n) (hj : j < n) :
+    ∑ k ∈ range n, (A' i k * A j k + B' i k * B j k) = if i = j then 1 else 0 :=
+  bogoliubov_constraint_of_car n ad a hc A B A' B' hinj hb i j hi hj
+
+-- non-vacuity of the constraints: the identity transformation (A = A' = 1, B = B' = 0) on one mode
+example : (∀ i j, i < 1 → j < 1 → ∑ k ∈ Finset.range 1, ((if i = k then (1 : ℤ) else 0) * (if j = k then 1 else 0) + 0 * 0) =
+    if i = j then 1 else 0) := by
+  intro i j hi hj
+  have : i = 0 := by omega
+  have : j = 0 := by omega
+  subst_vars; simp
 
 -- non-vacuity: one mode as 2 × 2 integer matrices acting on themselves; the vacuum is the projector |0⟩⟨0|
 open OFV.Car Matrix in
